@@ -163,5 +163,12 @@ let run_op (op : string) (args : string list) : string =
   | "msval", [ t; v ] ->
     let v = value_of_sexp (parse_sexp v) in
     (if mhas v (mty_of_sexp (parse_sexp t)) then "1 " else "0 ") ^ string_of_int (List.length (enc v))
+  (* ---- schema conformance ---- *)
+  | "conform", [ sch; nv; bs ] ->
+    let s = schema_of_sexp (parse_sexp sch) in
+    let v = nvalue_of_sexp (parse_sexp nv) in
+    let bytes = bytes_of_hex bs in
+    let d = nat_of_int (List.length bytes + 1) in
+    (if conforms d v s then "1 " else "0 ") ^ string_of_res hex_of_bytes (schema_skip d s bytes)
   | _ -> failwith ("unknown op " ^ op)
 
